@@ -1,11 +1,13 @@
 """Check registry: property id -> function(tier) -> exit code."""
 import json
 
-from . import chk_pyops
+from . import chk_contract, chk_pyops
 
 CHECKS = {
     "C03": chk_pyops.check_C03,
     "C01": chk_pyops.check_C01,
+    "C04": chk_contract.check_C04,
+    "C02": chk_contract.check_C02,
 }
 
 
